@@ -142,10 +142,19 @@ impl<'a> P<'a> {
         if self.i >= self.b.len() {
             return self.err("unexpected end of input");
         }
-        match self.b[self.i] {
-            b'n' if self.eat("null") => Ok(J::Null),
-            b't' if self.eat("true") => Ok(J::Bool(true)),
-            b'f' if self.eat("false") => Ok(J::Bool(false)),
+        let c = self.b[self.i];
+        if c == b'n' || c == b't' || c == b'f' {
+            return if self.eat("null") {
+                Ok(J::Null)
+            } else if self.eat("true") {
+                Ok(J::Bool(true))
+            } else if self.eat("false") {
+                Ok(J::Bool(false))
+            } else {
+                self.err("unexpected character")
+            };
+        }
+        match c {
             b'"' => Ok(J::Str(self.string()?)),
             b'[' => {
                 self.i += 1;
